@@ -277,7 +277,13 @@ def literals_for(name, kind, xs, rng, scale):
         out = []
         for b in lex.gen_bytes(rng, n):
             if xs == 'base64Binary':
-                out.append((base64.b64encode(b).decode(), b))
+                t = base64.b64encode(b).decode()
+                out.append((t, b))
+                if len(t) >= 4:
+                    # the lexical space of xs:base64Binary allows one space between any two characters
+                    out.append((' '.join(t[i:i + 4] for i in range(0, len(t), 4)), b))
+                    out.append((' '.join(t[i:i + 76] for i in range(0, len(t), 76)) if len(t) > 76 else t[:2] + ' ' + t[2:], b))
+                    out.append((' '.join(t), b))
             elif xs == 'hexBinary':
                 h = binascii.hexlify(b).decode()
                 out += [(h, b), (h.upper(), b)]
